@@ -4,6 +4,9 @@
 #include "cmb_event.h"
 #include "cmb_process.h"
 #include "cmb_logger.h"
+#include "cmb_resource.h"
+#include "cmb_resourcepool.h"
+#include "cmb_condition.h"
 
 #ifndef NWAIT
 #define NWAIT 2
@@ -14,7 +17,7 @@
 
 static uint64_t awaited;
 static int nwoken, ran_awaited, nfill;
-static int64_t wsig[16];
+static int64_t wsig[32];
 
 static void ev_awaited(void *s, void *o) { (void)s; (void)o; ran_awaited++; }
 static void ev_fill(void *s, void *o) { (void)s; (void)o; nfill++; }
@@ -41,7 +44,7 @@ void h_evgrow(void)
     struct cmb_process *w[NWAIT];
     for (intptr_t i = 0; i < NWAIT; i++) {
         w[i] = cmb_process_create();
-        cmb_process_initialize(w[i], "w", waiter, (void *)i, sym_i64("wprio"));
+        cmb_process_initialize(w[i], "w", waiter, (void *)i, i < 2 ? sym_i64("wprio") : (int64_t)(i % 3));
         cmb_process_start(w[i]);
     }
     /* let the waiters start and block */
@@ -67,7 +70,7 @@ void h_evgrow_cancel(void)
     struct cmb_process *w[NWAIT];
     for (intptr_t i = 0; i < NWAIT; i++) {
         w[i] = cmb_process_create();
-        cmb_process_initialize(w[i], "w", waiter, (void *)i, sym_i64("wprio"));
+        cmb_process_initialize(w[i], "w", waiter, (void *)i, i < 2 ? sym_i64("wprio") : (int64_t)(i % 3));
         cmb_process_start(w[i]);
     }
     for (int i = 0; i < NWAIT; i++) sym_assert(cmb_event_execute_next(), "start event");
@@ -81,4 +84,78 @@ void h_evgrow_cancel(void)
     cmb_event_queue_terminate();
 }
 
-const struct sym_entry sym_entries[] = { {"h_evgrow", h_evgrow}, {"h_evgrow_cancel", h_evgrow_cancel}, {0, 0} };
+/* ---- NWAIT processes queue for one resource / one pool / one condition: the waiting list (8 slots) and the
+ * pool's holder list grow while the library walks them; the holder then releases / ends / is stopped */
+static struct cmb_resource *res;
+static struct cmb_resourcepool *pool;
+static struct cmb_condition *cond;
+static int served, cstate;
+static void *holder(struct cmb_process *me, void *ctx)
+{
+    (void)me; (void)ctx;
+    sym_assert(cmb_resource_acquire(res) == CMB_PROCESS_SUCCESS, "holder acquires");
+    sym_assert(cmb_resourcepool_acquire(pool, 1) == CMB_PROCESS_SUCCESS, "holder acquires pool unit");
+    cmb_process_hold(1.0);
+    cstate = 1;
+    cmb_condition_signal(cond);
+    if (sym_choice(2, "holder_end") == 0) { cmb_resource_release(res); cmb_resourcepool_release(pool, 1); }
+    return 0;      /* or ends while holding: everything is dropped */
+}
+static bool cond_pred(const struct cmb_condition *c, const struct cmb_process *p, const void *x) { (void)c; (void)p; (void)x; return cstate != 0; }
+static void *queuer(struct cmb_process *me, void *ctx)
+{
+    (void)me;
+    intptr_t k = (intptr_t)ctx;
+    if (k % 3 == 0) { if (cmb_resource_acquire(res) == CMB_PROCESS_SUCCESS) { served++; cmb_resource_release(res); } }
+    else if (k % 3 == 1) { if (cmb_resourcepool_acquire(pool, 1) == CMB_PROCESS_SUCCESS) { served++; cmb_process_hold(0.5); cmb_resourcepool_release(pool, 1); } }
+    else { if (cmb_condition_wait(cond, cond_pred, 0) == CMB_PROCESS_SUCCESS) served++; }
+    return 0;
+}
+void h_waitgrow(void)
+{
+    cmb_logger_flags_off(0xFFFFFFFFu);
+    cmb_event_queue_initialize(0.0);
+    res = cmb_resource_create(); cmb_resource_initialize(res, "r");
+    pool = cmb_resourcepool_create(); cmb_resourcepool_initialize(pool, "p", NWAIT);
+    cond = cmb_condition_create(); cmb_condition_initialize(cond, "c");
+    struct cmb_process *h = cmb_process_create();
+    cmb_process_initialize(h, "h", holder, 0, 5);
+    cmb_process_start(h);
+    struct cmb_process *w[3 * NWAIT];
+    for (intptr_t i = 0; i < 3 * NWAIT; i++) {
+        w[i] = cmb_process_create();
+        cmb_process_initialize(w[i], "w", queuer, (void *)i, (i == 4) ? sym_i64("wprio") : (int64_t)(i % 4));
+        cmb_process_start(w[i]);
+    }
+    cmb_event_queue_execute();
+    sym_assert(served == 3 * NWAIT, "every queued process is eventually served");
+    for (int i = 0; i < 3 * NWAIT; i++) { cmb_process_terminate(w[i]); cmb_process_destroy(w[i]); }
+    cmb_process_terminate(h); cmb_process_destroy(h);
+    cmb_condition_destroy(cond); cmb_resourcepool_destroy(pool); cmb_resource_destroy(res);
+    cmb_event_queue_terminate();
+}
+
+/* many processes end while others wait for them: the tag pools and waiter lists are recycled */
+static struct cmb_process *victim;
+static int nw_done;
+static void *w_waiter(struct cmb_process *me, void *ctx) { (void)me; (void)ctx; int64_t r = cmb_process_wait_process(victim); sym_assert(r == CMB_PROCESS_SUCCESS || r == CMB_PROCESS_STOPPED, "waiter resumed by the end of the victim"); nw_done++; return 0; }
+static void *w_victim(struct cmb_process *me, void *ctx) { (void)me; (void)ctx; cmb_process_hold(1.0); return 0; }
+void h_manywaiters(void)
+{
+    cmb_logger_flags_off(0xFFFFFFFFu);
+    cmb_event_queue_initialize(0.0);
+    victim = cmb_process_create(); cmb_process_initialize(victim, "v", w_victim, 0, 0); cmb_process_start(victim);
+    struct cmb_process *w[NWAIT];
+    for (int i = 0; i < NWAIT; i++) { w[i] = cmb_process_create(); cmb_process_initialize(w[i], "w", w_waiter, 0, (int64_t)i); cmb_process_start(w[i]); }
+    double ts = sym_f64("t_stop"); sym_assume(ts >= 0.0 && ts <= 2.0);
+    /* optionally stop the victim from outside at a symbolic time (before, at or after its own end) */
+    while (cmb_event_execute_next()) {
+        if (cmb_time() >= ts && cmb_process_status(victim) == CMB_PROCESS_RUNNING && sym_choice(2, "stop") == 1) cmb_process_stop(victim, 0);
+    }
+    sym_assert(nw_done == NWAIT, "every waiter was resumed exactly once");
+    for (int i = 0; i < NWAIT; i++) { cmb_process_terminate(w[i]); cmb_process_destroy(w[i]); }
+    cmb_process_terminate(victim); cmb_process_destroy(victim);
+    cmb_event_queue_terminate();
+}
+
+const struct sym_entry sym_entries[] = { {"h_evgrow", h_evgrow}, {"h_evgrow_cancel", h_evgrow_cancel}, {"h_waitgrow", h_waitgrow}, {"h_manywaiters", h_manywaiters}, {0, 0} };
